@@ -1,0 +1,65 @@
+//go:build verif
+
+// Verification hook points. Compiled only with `-tags verif`; see verif_stub.go for the
+// no-op used by regular builds.
+
+package rosmar
+
+import (
+	"sync/atomic"
+)
+
+type verifHookFn func(name string, tag string)
+
+var verifHook atomic.Pointer[verifHookFn]
+
+// VerifSetHook installs (or, with nil, removes) the process-global handler that is called at
+// every verifPoint.
+func VerifSetHook(fn func(name string, tag string)) {
+	if fn == nil {
+		verifHook.Store(nil)
+		return
+	}
+	h := verifHookFn(fn)
+	verifHook.Store(&h)
+}
+
+func verifPoint(name string, tag string) {
+	if h := verifHook.Load(); h != nil {
+		(*h)(name, tag)
+	}
+}
+
+type verifClock struct {
+	fn func() uint64
+}
+
+func (c *verifClock) getTime() uint64 { return c.fn() }
+
+// VerifNewHLC returns a HybridLogicalClock that reads time from the given function.
+func VerifNewHLC(lastTime Timestamp, clockFn func() uint64) *HybridLogicalClock {
+	c := NewHybridLogicalClock(lastTime)
+	c.clock = &verifClock{fn: clockFn}
+	return c
+}
+
+// VerifSetGlobalClock replaces the time source of the process-global HLC and returns a function
+// that restores the previous one.
+func VerifSetGlobalClock(clockFn func() uint64) (restore func()) {
+	hlc.mutex.Lock()
+	prev := hlc.clock
+	hlc.clock = &verifClock{fn: clockFn}
+	hlc.mutex.Unlock()
+	return func() {
+		hlc.mutex.Lock()
+		hlc.clock = prev
+		hlc.mutex.Unlock()
+	}
+}
+
+// VerifGlobalHLCHighest returns the highest timestamp handed out so far by the global HLC.
+func VerifGlobalHLCHighest() uint64 {
+	hlc.mutex.Lock()
+	defer hlc.mutex.Unlock()
+	return hlc.highestTime
+}
